@@ -776,7 +776,7 @@ Definition step (s : st) (e : event) : option st :=
     | Outgoing, PAckDel p =>
       if option_eqb N.eqb (get_id p) (Some id) then
         match r with
-        | Fail => Some (set_ppc s PExited)                 (* `return err`: the processor leaves without die *)
+        | Fail => Some (die_proc s true PExited)          (* die(err, true) (7e8a35e) *)
         | Ok => Some (set_ppc (set_sess s (sess_with (sess s) Outgoing (store_delete (s_out (sess s)) id))) (PAckFut p))
         end
       else None
